@@ -186,6 +186,7 @@ def _inv(interp, env):
            ("nothing_changed_so_far", z3.Not(ch)),
            ("sim_time_restored_to_end_of_step", ival(wn.sim_time) == ival(g.cur)),
            ("next_rule_instant_after_latest_event", z3.And(ri >= 1, ri * rts > ival(g.last), ival(g.last) >= ival(g.prev), ival(g.last) <= ival(g.cur))),
+           ("no_rule_instant_skipped_so_far", (ri - 1) * rts <= z3.If(ival(g.last) >= 0, ival(g.last), 0)),
            ("next_due_control_not_earlier_than_latest_event", z3.Implies(cnt < n, ival(g.last) <= ival(g.cur) - _b_at(lst, cnt, "back")))]
     if env.locals["first_step"] is True:
         inv.append(("initial_tank_levels_untouched_on_the_first_step", z3.BoolVal(g.tank_time is None)))
@@ -225,6 +226,7 @@ def _case(first_step):
     def build(cx):
         cur, prev, rts, r0 = cx.int("cur"), cx.int("prev"), cx.int("rule_timestep"), cx.int("rule_iter")
         cx.assume(cx.t(prev) < cx.t(cur), cx.t(rts) > 0, cx.t(r0) >= 1, cx.t(r0) * cx.t(rts) > cx.t(prev), cx.t(prev) >= -1)
+        cx.assume((cx.t(r0) - 1) * cx.t(rts) <= z3.If(cx.t(prev) >= 0, cx.t(prev), 0))      # requires: the next rule instant is the first one after the last solved time
         if first_step:   # run_sim: first_step iff sim_time == 0, and then _prev_sim_time = -1
             cx.assume(cx.t(cur) == 0, cx.t(prev) == -1)
         g = Ghost(cx.path, cur, prev)
@@ -260,6 +262,7 @@ def _case(first_step):
                     ("without_a_change_the_whole_step_is_taken_and_everything_due_was_handled",
                      z3.Implies(z3.Not(ch), z3.And(t2 == CUR, ival(g.nran) == n_due, ri * RTS > CUR))),
                     ("next_rule_instant_lies_after_the_accepted_time", z3.And(ri >= 1, ri * RTS > t2)),
+                    ("and_is_the_first_one_after_it_no_rule_instant_is_skipped", (ri - 1) * RTS <= z3.If(t2 >= 0, t2, 0)),
                     ("presolve_reference_point_removed", g.ref_set and g.ref_removed)] + (
                        [("initial_tank_levels_untouched_on_the_first_step", g.tank_time is None)] if first_step else [])
         cx.ensure(post)
